@@ -77,6 +77,16 @@ def run_case(exe, rundir, case, timeout=60, keep=False):
         res["sol_present"] = False
         res["sol"] = None
         res["sol_error"] = None
+    # further solution files of the run (sol:stub=<prefix>): <prefix>1.sol, <prefix>2.sol, ...
+    if case.get("collect_sols"):
+        import glob
+        alts = []
+        for ap in sorted(glob.glob(os.path.join(d, case["collect_sols"] + "*.sol"))):
+            try:
+                alts.append({"name": os.path.basename(ap), "sol": nlgen.parse_sol(ap), "error": None})
+            except Exception as ex:
+                alts.append({"name": os.path.basename(ap), "sol": None, "error": "%s: %s" % (type(ex).__name__, ex)})
+        res["alt"] = alts
     gp = os.path.join(d, "graph.jsonl")
     if os.path.exists(gp):
         res["graph_text"] = open(gp, errors="replace").read()
